@@ -65,18 +65,21 @@ def build_tools(race=False):
         if os.path.exists(extra):
             sums.update(l for l in open(extra).read().splitlines() if l.strip())
         want = "\n".join(sorted(sums)) + "\n"
-        gs = os.path.join(VERIF, "harness", "go.sum")
-        if not os.path.exists(gs) or open(gs).read() != want:
-            open(gs, "w").write(want)
+        # a private modfile so that ZV_REPO can point the `replace` at another tree (go.sum lives next to it)
+        mod = open(os.path.join(VERIF, "harness", "go.mod")).read().replace("=> /repo", "=> " + REPO)
+        modfile = os.path.join(WORK, "harness.mod")
+        for path, txt in ((modfile, mod), (os.path.join(WORK, "harness.sum"), want)):
+            if not os.path.exists(path) or open(path).read() != txt:
+                open(path, "w").write(txt)
         rc, out, err = run(["go", "build", "-o", os.path.join(BIN, "zvgen"), "."], cwd=os.path.join(VERIF, "gen"))
         if rc != 0:
             return False, "zvgen build failed:\n" + err.decode()
-        rc, out, err = run(["go", "build", "-tags", "verif", "-o", os.path.join(BIN, "zvh"), "./cmd/zvh"],
+        rc, out, err = run(["go", "build", "-modfile=" + modfile, "-tags", "verif", "-o", os.path.join(BIN, "zvh"), "./cmd/zvh"],
                            cwd=os.path.join(VERIF, "harness"))
         if rc != 0:
             return False, "zvh build failed (does /repo still compile?):\n" + err.decode()
         if race:
-            rc, out, err = run(["go", "build", "-race", "-tags", "verif", "-o", os.path.join(BIN, "zvh-race"), "./cmd/zvh"],
+            rc, out, err = run(["go", "build", "-modfile=" + modfile, "-race", "-tags", "verif", "-o", os.path.join(BIN, "zvh-race"), "./cmd/zvh"],
                                cwd=os.path.join(VERIF, "harness"))
             if rc != 0:
                 return False, "zvh -race build failed:\n" + err.decode()
@@ -85,6 +88,7 @@ def build_tools(race=False):
 
 def regen():
     """Regenerate lean/ZapVerif/Gen/*.lean from /repo. Returns (ok, message, table_rows)."""
+    run([os.path.join(VERIF, "bin", "mkdrv")])
     with Lock("build.lock"):
         rc, out, err = run([os.path.join(BIN, "zvgen"), "-repo", REPO, "-zvh", os.path.join(BIN, "zvh"),
                             "-out", os.path.join(LEAN, "ZapVerif", "Gen")])
